@@ -143,6 +143,20 @@ class EncodeState:
                     EncodeError)
                 internal_value = int(internal_value)
 
+            if bit_length > 0 and base_type_encoding in (None, Encoding.ONEC, Encoding.TWOC,
+                                                         Encoding.SM):
+                # make sure that the value is in the range which can
+                # be represented. (be aware that the most significant
+                # bit is the sign bit.)
+                max_value = (1 << (bit_length - 1)) - 1
+                min_value = -max_value
+                if base_type_encoding in (None, Encoding.TWOC):
+                    min_value -= 1
+                if internal_value < min_value or internal_value > max_value:
+                    odxraise(
+                        f"The value '{internal_value!r}' cannot be encoded using "
+                        f"{bit_length} bits.", EncodeError)
+
             if base_type_encoding == Encoding.ONEC:
                 # one-complement
                 if internal_value >= 0:
